@@ -724,4 +724,37 @@ theorem removeChild_effect (s s' : St) (p c c' : Nat) (hi : Inv s) (h : removeCh
   have := findInL_append_left p (removeIn c pn).1 (s1.doc :: s1.detached) [k] hp1
   simpa using this
 
+/-- what a data edit may not change of any OTHER node: its identity, its kind, its data -/
+def sigD (n : Node) : Nat × Kind × Str := (n.id, n.kind, n.data)
+
+theorem orElse_map_congr {α β : Type} (g : α → β) (a a' b b' : Option α)
+    (h1 : a'.map g = a.map g) (h2 : b'.map g = b.map g) :
+    (a'.orElse fun _ => b').map g = (a.orElse fun _ => b).map g := by
+  cases a <;> cases a' <;> simp_all
+
+mutual
+theorem findIn_updateIn_other (i m : Nat) (d : Str) (hne : m ≠ i) : (t : Node) →
+    (findIn m (updateIn i (Node.withData d) t)).map sigD = (findIn m t).map sigD
+  | .mk j k dd as ks => by
+    simp only [updateIn]
+    by_cases hij : (i == j) = true
+    · have hmj : (m == j) = false := by
+        have : i = j := by simpa using hij
+        subst this; simpa using hne
+      simp [hij, Node.withData, findIn, hmj]
+    · have hijf : (i == j) = false := by simpa using hij
+      simp only [hijf, Bool.false_eq_true, if_false, findIn]
+      by_cases hmj : (m == j) = true
+      · simp [hmj, sigD, Node.id, Node.kind, Node.data]
+      · have hmjf : (m == j) = false := by simpa using hmj
+        simp only [hmjf, Bool.false_eq_true, if_false]
+        exact orElse_map_congr sigD _ _ _ _ (findInL_updateInL_other i m d hne as) (findInL_updateInL_other i m d hne ks)
+theorem findInL_updateInL_other (i m : Nat) (d : Str) (hne : m ≠ i) : (l : List Node) →
+    (findInL m (updateInL i (Node.withData d) l)).map sigD = (findInL m l).map sigD
+  | [] => rfl
+  | t :: r => by
+    simp only [updateInL, findInL]
+    exact orElse_map_congr sigD _ _ _ _ (findIn_updateIn_other i m d hne t) (findInL_updateInL_other i m d hne r)
+end
+
 end XmlRs.Dom
